@@ -106,6 +106,89 @@ func runC41(w *World, r *Report) {
 		return
 	}
 
+	// ---- R-C41-4: no transport bounds the payload
+	r.Rule("R-C41-4", "every decode of a ChildServiceRequest or ChildServiceResponse (json.Decoder.Decode, json.Unmarshal) reads from the connection, a bufio.Reader over it, or a whole file: never from a bufio.Scanner token or a ReadLine/ReadSlice result, which cap the payload at the buffer size on that transport only", 4)
+
+	{
+		isPayload := func(t types.Type) bool {
+			// &r with r already a pointer: look through every pointer level
+			for {
+				p, ok := types.Unalias(t).(*types.Pointer)
+				if !ok {
+					break
+				}
+
+				t = p.Elem()
+			}
+
+			n, _ := types.Unalias(t).(*types.Named)
+
+			return n != nil && n.Obj().Pkg() != nil && n.Obj().Pkg().Path() == sp.PkgPath && (n.Obj().Name() == "ChildServiceRequest" || n.Obj().Name() == "ChildServiceResponse")
+		}
+
+		bounded := func(v ssa.Value) bool {
+			c, ok := v.(*ssa.Call)
+			if !ok {
+				return false
+			}
+
+			switch callID(c.Common()) {
+			case "bufio.Scanner.Bytes", "bufio.Scanner.Text", "bufio.Reader.ReadLine", "bufio.Reader.ReadSlice", "bufio.NewScanner":
+				return true
+			}
+
+			return false
+		}
+
+		for _, fn := range w.srcFuncs(sp) {
+			n := 0
+
+			allInstrs(fn, func(in ssa.Instruction) {
+				c, ok := in.(*ssa.Call)
+				if !ok {
+					return
+				}
+
+				var src, dst ssa.Value
+
+				switch callID(c.Common()) {
+				case "encoding/json.Unmarshal":
+					src, dst = c.Call.Args[0], c.Call.Args[1]
+				case "encoding/json.Decoder.Decode":
+					dst = c.Call.Args[1]
+
+					// the reader given to json.NewDecoder
+					if nd, isCall := c.Call.Args[0].(*ssa.Call); isCall && callID(nd.Common()) == "encoding/json.NewDecoder" {
+						src = nd.Call.Args[0]
+					}
+				default:
+					return
+				}
+
+				if mi, isMI := dst.(*ssa.MakeInterface); isMI {
+					dst = mi.X
+				}
+
+				if !isPayload(dst.Type()) {
+					return
+				}
+
+				n++
+
+				key := fnKey(fn) + "|decode payload"
+				if n > 1 {
+					key += "#" + sprintInt(n)
+				}
+
+				if src != nil && derivesFrom(src, bounded, func(string) bool { return true }) {
+					r.Violate("R-C41-4", key, w.pos(in.Pos()), "the payload is decoded from a bufio.Scanner token (or a ReadLine / ReadSlice result): anything longer than the scanner's buffer (64 KiB by default) fails on this transport while the in-process path and the other transports accept it")
+				} else {
+					r.Discharge("R-C41-4", key, w.pos(in.Pos()), "decoded from a stream or a whole buffer")
+				}
+			})
+		}
+	}
+
 	// ---- R-C41-3: sibling agreement on reading the request body
 	r.Rule("R-C41-3", "both execution modes read the request body unconditionally: in ServiceHandler and in callChildServices every path from entry to the hand-off (NewContext / running the child) passes a call that reads r.Body", 2)
 
